@@ -90,8 +90,11 @@ def pred_failed_result(c):
 
 
 def pred_retry0_forever(c):
-    """tm.retry0.transport-forever: a retry count of 0 is configured and from some point on
-    the coordinator answers only with transport failures"""
+    """tm.retry0.transport-forever: the retry count that applies is 0 and every reply the second
+    phase can receive is a transport failure (error or no reply), for ever"""
+    if is_leaf(c):
+        n = c["nc"] if c["tree"]["out"] == "nil" else c["nr"]
+        return n == 0 and c["default"] in TRANSPORT and all(x in TRANSPORT for x in c["script"][1:])
     return (c["nc"] == 0 or c["nr"] == 0) and c["default"] in TRANSPORT
 
 
